@@ -414,9 +414,7 @@ pub fn templates(t: &mut Tape, fam: Fam) -> Vec<Vec<u8>> {
             d.push(5);
             vec![d]
         }
-        Fam::Eco => {
-            vec![format!("{{\"Info\":{{\"Description\":\"{}\",\"OnlinePlayers\":1}}}}", s(t).replace('"', "")).into_bytes()]
-        }
+        Fam::Eco => vec![eco_body(t)],
         Fam::EcoHttp => http_templates(t),
         Fam::Master => {
             let mut a = vec![0xff, 0xff, 0xff, 0xff, 0x66, 0x0a];
@@ -458,10 +456,31 @@ pub fn gzip_bomb(n: usize) -> Vec<u8> {
         .clone()
 }
 
+/// An Eco front page: minimal, or with counts that have nothing to do with the lists next to them.
+fn eco_body(t: &mut Tape) -> Vec<u8> {
+    let d = small_str(t).replace('"', "");
+    match t.draw(DATA, 4) {
+        0 | 1 => {
+            // a complete, valid front page (every field the client requires) whose counts have nothing to
+            // do with the lists next to them
+            let mut st = crate::models::misc::EcoState::generate(t);
+            if t.draw(DATA, 2) == 0 {
+                let n = *t.pick(DATA, &[2_000_000u64, 4_294_967_295, 16_777_216, 99_999_999]);
+                for k in ["OnlinePlayers", "TotalPlayers", "ActiveAndOnlinePlayers", "PeakActivePlayers", "MaxActivePlayers", "Animals", "Plants", "Laws"] {
+                    st.info.insert(k.to_string(), serde_json::json!(n));
+                }
+                st.info.insert("OnlinePlayersNames".to_string(), serde_json::json!(["a", "b"]));
+            }
+            st.body()
+        }
+        _ => format!("{{\"Info\":{{\"Description\":\"{d}\",\"OnlinePlayers\":1}}}}").into_bytes(),
+    }
+}
+
 /// Valid HTTP/1.1 responses carrying an Eco front page (several framings), and the classic abuses
 /// of the framing headers.
 fn http_templates(t: &mut Tape) -> Vec<Vec<u8>> {
-    let body = format!("{{\"Info\":{{\"Description\":\"{}\",\"OnlinePlayers\":1}}}}", small_str(t).replace('"', "")).into_bytes();
+    let body = eco_body(t);
     let head = |extra: &str| format!("HTTP/1.1 200 OK\r\nContent-Type: application/json; charset=utf-8\r\nServer: Kestrel\r\n{extra}\r\n").into_bytes();
     match t.draw(DATA, 9) {
         0 | 1 => {
